@@ -159,7 +159,10 @@ class SdfTransformer(Transformer):
     @staticmethod
     def start(args):
         name = next((a for a in args if isinstance(a, str)), None)
-        cells = dict(t for t in args if isinstance(t, tuple))
+        cells = dict()
+        for t in args:
+            if isinstance(t, tuple):  # the entries of one instance may be spread over several CELL blocks
+                cells.setdefault(t[0], []).extend(t[1])
         return DelayFile(name, cells)
 
 
